@@ -27,6 +27,8 @@ BOUND = {
     "quick": "27 types x all subsets of size <=3 of 9 columns x 8 values (alias/order rotated with the value) x 3 contexts",
     "thorough": "27 types x all 512 subsets x 8 values x 2 alias spellings x 3 contexts (order rotated)",
 }
+# as-built additions to the bound (kept next to BOUND so that the evidence reports them)
+BOUND = {k: v + "; plus: " + '11 columns (noAppErrorString and a constraint_message::fr language column added); 6 further range / image / geopoint parameter spellings' for k, v in BOUND.items()}
 
 NSP = {"jr": O.JR, "odk": O.ODK, "orx": O.ORX}
 
